@@ -27,11 +27,34 @@ def decCodecOfJson (j : Json) : DecCodec :=
     floatOfInt := fun i => match fofi.find? (fun e => e.1 == i) with
       | some e => e.2 | none => none }
 
+/-- correspondence of the concrete conversions with the Python tables of the request: number of
+    table entries where `truncF64` / `floatOverflows` disagree with what CPython answered -/
+def convMismatches (j : Json) : Nat :=
+  let t1 := (getArr j "truncs").filter (fun e => match e with
+    | .arr a =>
+      let want : Except PyExc Int := match a[1]! with
+        | .str s => (match s.toInt? with
+            | some i => .ok i
+            | none => if s == "OverflowError" then .error .overflowError else .error .valueError)
+        | _ => .error .valueError
+      (match Resp.truncF64 (bitsOf (a[0]!)), want with
+        | .ok x, .ok y => x != y
+        | .error x, .error y => x != y
+        | _, _ => true)
+    | _ => false)
+  let t2 := (getArr j "fofi").filter (fun e => match e with
+    | .arr a =>
+      let i := (jsonToInt? (a[0]!)).getD 0
+      let none_ := match a[1]! with | .null => true | _ => false
+      Resp.floatOverflows i != none_
+    | _ => false)
+  t1.length + t2.length
+
 def envCodecOfJson (j : Json) : EnvCodec :=
   let uris : List (Str × Bool) := (getArr j "uris").filterMap (fun e => match e with
     | .arr a => some ((jsonToChars? (a[0]!)).getD [], match a[1]! with | .bool b => b | _ => false)
     | _ => none)
-  { toDecCodec := decCodecOfJson j,
+  { toDecCodec := Resp.concreteCodec (decCodecOfJson j),
     wbemUriOk := fun s => match uris.find? (fun e => e.1 == s) with | some e => e.2 | none => false }
 
 def postOfJson (j : Json) : Post :=
@@ -125,7 +148,7 @@ def handle (j : Json) : Json :=
       | .error .versionError, some t => Json.str (versionKind t)
       | _, _ => Json.null
     Json.mkObj [("out", out), ("req", o.hasRequestData), ("resp", o.hasResponseData), ("vk", vk),
-      ("leak", o.isLeak)]
+      ("leak", o.isLeak), ("convMismatch", convMismatches (getField j "codec"))]
   | some "http" =>
     match httpLayer (httpOfJson (getField j "http")) with
     | .ok _ => Json.mkObj [("out", Json.mkObj [("ok", Json.null)])]
